@@ -56,7 +56,13 @@ def main():
                 row[c] = {"exit": rc, "verdict": "VIOLATION" if rc == 1 else "held" if rc == 0 else "inconclusive", "kinds": kinds[:6], "repo_head": head, "verif": verif_commit}
             caught = [c for c in row if row[c]["verdict"] == "VIOLATION"]
             print(name, "caught by", caught, flush=True)
-            json.dump(matrix, open(matrix_path, "w"), indent=1, sort_keys=True)
+            # several runs of this tool may work on disjoint sets of changes at once: merge under a lock
+            import fcntl
+            with open(matrix_path + ".lock", "w") as lk:
+                fcntl.flock(lk, fcntl.LOCK_EX)
+                cur = json.load(open(matrix_path)) if os.path.exists(matrix_path) else {}
+                cur[name] = row
+                json.dump(cur, open(matrix_path, "w"), indent=1, sort_keys=True)
             mp = os.path.join(d, "meta.json")
             meta = json.load(open(mp))
             meta["checks_run"] = {"how": "patch applied to a scratch worktree of /repo HEAD %s; ./check <id> --tier quick with LSF_REPO pointing at it" % head,
